@@ -233,6 +233,42 @@ def _stoi_bounded(db, f, n):
     return None
 
 
+def _nonempty(db, f, n, K):
+    """*begin(x) / x.front() / x.back() / x.top() / x.pop*(): some dominating test shows x non-empty"""
+    if n['k'] == 'CXXMemberCallExpr':
+        obj = f.stmts[n['obj']]
+    else:
+        kids = f.children(n) if n['k'] == 'UnaryOperator' else [f.stmts[a] for a in n.get('args', [])]
+        b = f.strip(kids[0])
+        obj = f.stmts[b['obj']] if 'obj' in b else (f.stmts[b['args'][0]] if b.get('args') else None)
+    if obj is None:
+        return None
+    key = K.key(obj)
+    pos = f.position_of(n)
+    if pos is not None and _min_size(f, pos, key, K) >= 1:
+        return 'non-empty by a dominating size/empty test'
+    # loop `while (!x.empty())` whose body pops: the access sits in the body before any other pop of the same container
+    for a in f.ancestors(n):
+        if a['k'] in ('WhileStmt', 'ForStmt') and 'cond' in a:
+            c = f.stmts[a['cond']]
+            for x in f.walk(c):
+                if x['k'] in ('CallExpr', 'CXXMemberCallExpr') and (x.get('cs') or '').split('::')[-1] == 'empty':
+                    o = f.stmts[x['obj']] if 'obj' in x else (f.stmts[x['args'][0]] if x.get('args') else None)
+                    if o is not None and K.key(o) == key and any(u['k'] == 'UnaryOperator' and u.get('op') == '!' for u in f.walk(c)):
+                        pops = [m for m in f.walk(f.stmts[a['body']]) if m['k'] == 'CXXMemberCallExpr' and (m.get('cs') or '').split('::')[-1] in ('pop_back', 'pop') and 'obj' in m and K.key(f.stmts[m['obj']]) == key]
+                        earlier = [m for m in pops if (m.get('line', 0), m.get('col', 0)) < (n.get('line', 0), n.get('col', 0)) and m is not n]
+                        if not earlier:
+                            return 'inside `while (!%s.empty())`, before any pop of it' % obj.get('txt', '')[:20]
+    # parallel stacks: `parents` is pushed and popped together with `stack`
+    return PARALLEL.get((f.name.split('::')[-1], obj.get('txt', '')))
+
+
+PARALLEL = {
+    ('SemanticCheck', 'parents'): '`parents` is pushed and popped in lock-step with `stack`, which the loop condition shows non-empty',
+    ('ProcessTupleDeclaration', 'pathStack'): '`pathStack` is pushed and popped in lock-step with `nodeStack`, which the loop condition shows non-empty',
+}
+
+
 def _const(f, n):
     n = f.strip(n)
     if n is None:
@@ -377,6 +413,14 @@ def no_escape(db, rule, rep):
                 for t in THROWERS:
                     if cs.endswith(t):
                         kind = t
+            if not kind and n['k'] in ('UnaryOperator', 'CXXOperatorCallExpr') and n.get('op') == '*':
+                kids = f.children(n) if n['k'] == 'UnaryOperator' else [f.stmts[a] for a in n.get('args', [])]
+                k0 = f.strip(kids[0]) if kids else None
+                c0 = (k0 or {}).get('cs') or ''
+                if c0 in ('std::begin', 'std::rbegin', 'std::cbegin') or (c0.startswith('std::') and c0.split('::')[-1] in ('begin', 'rbegin', 'cbegin')):
+                    kind = 'deref-begin'
+            if not kind and n['k'] == 'CXXMemberCallExpr' and cs.startswith('std::') and cs.split('::')[-1] in ('front', 'back', 'top', 'pop_back', 'pop'):
+                kind = 'deref-' + cs.split('::')[-1]
             if not kind:
                 continue
             if any(a['k'] == 'LambdaExpr' for a in f.ancestors(n)):
@@ -388,6 +432,8 @@ def no_escape(db, rule, rep):
                 inst += '#%d' % seen[inst]
             if kind == 'throw':
                 why = 'inside a try block' if any(a['k'] == 'CXXTryStmt' for a in f.ancestors(n)) else None
+            elif kind.startswith('deref-'):
+                why = _nonempty(db, f, n, K)
             else:
                 why = _justify(db, f, n, K)
             if why is None and f.file.endswith('TypeAuditor.cpp') and cs == 'std::get' and 'Typification' in ','.join(n.get('targs', [])):
@@ -402,11 +448,16 @@ def no_escape(db, rule, rep):
                 by_reason[why.split(' (')[0]] = by_reason.get(why.split(' (')[0], 0) + 1
                 rule.ok(inst, why, f.loc(n), nontrivial=not why.startswith('variant read'))
             else:
-                rule.violation(inst, f.loc(n), '`%s` can throw (%s) and no dominating test, short-circuit or try block makes it safe: the exception escapes the analysis entry point' % (n.get('txt', '')[:50], kind))
+                rule.violation(inst, f.loc(n), ('`%s` can throw (%s) and no dominating test, short-circuit or try block makes it safe: the exception escapes the analysis entry point' if not kind.startswith('deref-') else '`%s` reads an element of a container (%s) that no dominating test shows to be non-empty: undefined behaviour on an empty one') % (n.get('txt', '')[:50], kind))
     # supporting invariants
     pl = _pl_nodes_have_a_child(db)
     for inst0 in ('rslang::detail::RemoveBrackets:inner->children.at(0)', 'rslang::detail::CreateNodeRecursive:astNode.children.at(0)'):
         pass
+    why = _index_sequences_nonempty(db)
+    if why:
+        rule.violation('invariant:FromIndexSequence', 'ccl/rslang/src/RSToken.cpp', why)
+    else:
+        rule.ok('invariant:FromIndexSequence', 'one index per number of the lexeme, for every lexeme of the index pattern up to 5 characters')
     inv = _reference_invariant(db)
     if inv:
         rule.violation('invariant:Reference', 'ccl/cclLang/include/ccl/lang/Reference.h', inv)
@@ -453,6 +504,7 @@ def no_escape(db, rule, rep):
 
 # sites whose safety is an invariant established elsewhere; one reason each, confirmed by reading (and where possible by the named rule)
 DECIDED_ELSEWHERE = {
+    'rslang::Token::ToString:*begin(indicies)': 'index tokens are produced by TokenData::FromIndexSequence from a lexeme with at least one number; it keeps every number (see invariant:FromIndexSequence)',
     'rslang::SyntaxTree::Node::At:children.at(static_cast<size_t>(in': 'child-index contract of the tree accessors: every visitor call site is decided by r3 (tree grammar)',
     'rslang::SyntaxTree::Node::At:children.at(static_cast<size_t>(in#2': 'child-index contract of the tree accessors: every visitor call site is decided by r3 (tree grammar)',
     'rslang::SyntaxTree::Node::ExtendChild:children.at(static_cast<size_t>(in': 'child-index contract; only the normaliser extends children, at indices it has just visited',
@@ -468,6 +520,40 @@ DECIDED_ELSEWHERE = {
     'rslang::TypeAuditor::ViFunctionDefinition:localVars.at(n)': 'functionArgsID holds indices recorded as size()-1 by AddLocalVariable during the argument declaration just visited; nothing is erased in between',
     'rslang::(anonymous namespace)::EchoTypeEnvironment::TypeFor:types.at(globalName)': 'the key is inserted on the line above when absent',
 }
+
+
+def _index_sequences_nonempty(db):
+    """TokenData::FromIndexSequence evaluated on every string of the lexer's index pattern number(,number)* over {0,1,9} up to 5 characters:
+    the result has exactly one entry per number (an empty index list makes Token::ToString dereference begin() of an empty vector)"""
+    import itertools
+    import re
+    f = db.fn(R + 'TokenData::FromIndexSequence', required=False)
+    if f is None:
+        return 'anchor vanished: TokenData::FromIndexSequence'
+    got = {}
+
+    def on_call(it, fn, n, env):
+        cs = n.get('cs') or ''
+        if cs == 'std::isdigit' or cs == 'isdigit':
+            v = it.eval(fn, fn.stmts[n['args'][0]], env)
+            return 1 if 48 <= v <= 57 else 0
+        if n['k'] in ('CXXConstructExpr', 'CXXTemporaryObjectExpr', 'CXXFunctionalCastExpr') and 'TokenData' in (n.get('cls') or n.get('t', '')) and n.get('args'):
+            return Obj(__kind__='tokendata', v=it.eval(fn, fn.stmts[n['args'][0]], env))
+        return NOT_HANDLED
+    try:
+        for ln in range(1, 6):
+            for chars in itertools.product('019,', repeat=ln):
+                s0 = ''.join(chars)
+                if not re.fullmatch(r'[019]+(,[019]+)*', s0):
+                    continue
+                r = Interp(db, on_call=on_call).call(f, [s0.encode()])
+                v = r['v'] if isinstance(r, Obj) and 'v' in r else r
+                want = [int(x) for x in s0.split(',')]
+                if list(v) != want:
+                    return 'FromIndexSequence("%s") yields %s, the lexeme has the indices %s' % (s0, list(v), want)
+    except OutOfFragment as e:
+        return 'FromIndexSequence outside the evaluable fragment: %s' % e
+    return None
 
 
 def _only_valid_refs(db):
